@@ -200,6 +200,8 @@ pub fn run(ctx: &Ctx, reject_mode: bool) -> Result<Evidence, String> {
     // (iii) notable characters at every kind of position (valid and invalid alike: the
     // recognisers decide), and 3-/4-operand formulas in every context with blanks at every slot
     corpus.extend(gen::notable_char_strings());
+    corpus.extend(gen::double_fault_strings());
+    corpus.extend(gen::syntax_inside_strings());
     for t in gen::composition_queries() {
         let ast = match analyze(&t).ast {
             Some(a) => a,
@@ -224,8 +226,10 @@ pub fn run(ctx: &Ctx, reject_mode: bool) -> Result<Evidence, String> {
     let per = ctx.tier.pick(6, 30);
     let mut mutants = vec![];
     for s in corpus.iter() {
-        for _ in 0..per {
-            mutants.push(gen::mutate(s, &mut rng));
+        for k in 0..per {
+            // every third mutant carries two edits (faults that cancel each other)
+            let m = gen::mutate(s, &mut rng);
+            mutants.push(if k % 3 == 2 { gen::mutate(&m, &mut rng) } else { m });
         }
     }
     corpus.extend(mutants);
